@@ -117,6 +117,7 @@ static Content instantiate(const std::string n[3], int v1, int v2, int r1, int r
   c.term[1] = "first @{" + n[0] + "|nomn}";
   c.term[2] = "second @{" + n[1] + "|sing,gent} and @{" + n[0] + "|plur}";
   c.textDef[2] = "see @{" + n[1] + "|nomn}";
+  c.textDef[1] = "compound @{" + n[0] + "|nomn}@{" + n[1] + "|sing,gent}@{" + n[0] + "|plur}-end";     // directly adjacent references
   return c;
 }
 static std::string typeString(const ParsingInfo& p) {
